@@ -252,6 +252,9 @@ func c08Check(c *fw.Ctx, alts []c08Alt, uses [][]int, ruleOrder, laOrder []int) 
 		return
 	}
 	c.Eval(1)
+	if err == nil && t != nil && len(t.Lookaheads) > 0 {
+		c.Sample(desc())
+	}
 	ei := reflalr.ClassifyErr(err)
 	if ei.Summary || ei.ConflictMsgs > 0 || len(ei.Other) > 0 {
 		c.Violate("carrier/unexpected-error-kind", desc(), reflalr.Files(g))
